@@ -3,7 +3,7 @@ CONSTANTS
   IntParts = {0, 1, 7, 12, 96, 254}
   Fracs <- FracsT
   Exps <- ExpsT
-  Refs = {1, 50, 816}
+  Refs = {0, 1, 50, 816}
 INVARIANT RoundTripExact
 INVARIANT InchesTimes96
 INVARIANT TablesOK
